@@ -8,6 +8,7 @@ package main
 // and subscriptions of a node.
 
 import (
+	"os"
 	"encoding/json"
 	"fmt"
 	"sort"
@@ -343,6 +344,14 @@ func (e2eFamily) Exec(id int, raw json.RawMessage) Case {
 		}
 		clk := int64(1000+10*si) + off
 		atomic.StoreInt64(&cl.curClock, clk)
+		if os.Getenv("VERIF_TIMING") != "" {
+			t0 := time.Now()
+			defer func(o e2eOp) {
+				if d := time.Since(t0); d > 50*time.Millisecond {
+					fmt.Fprintf(os.Stderr, "SLOW %v %s %s %s %s\n", d, o.Op, o.C, o.P, o.Hex)
+				}
+			}(o)
+		}
 		node := cl.nodes[o.N]
 		var k *e2eClient
 		if o.C != "" {
@@ -366,7 +375,13 @@ func (e2eFamily) Exec(id int, raw json.RawMessage) Case {
 			if !k.conn.WaitOutCount(1, cl.wait()) {
 				tags["no-connack"] = true
 			}
-			k.conn.WaitIdle(cl.wait())
+			if o.Pass != "bad" && o.Pass != "bad-static" {
+				k.conn.WaitIdle(cl.wait())
+			} else {
+				// the refusal CONNACK is the last thing setup does: nobody reads this connection afterwards
+				// (it stays open until the client gives up), so there is no idle state to wait for
+				time.Sleep(500 * time.Microsecond)
+			}
 			syncMsg = settle(nil)
 			withDl = true
 			opT = fmt.Sprintf("EConnect %s %s %s %s %s %s %s %s", cqNat(o.N), cqStr(o.C), cqStr(o.CID), cqStr(o.User), cqStr(o.Pass), cqZ(int64(ka)), cqOptPubE(o.Will), cqZ(clk))
